@@ -32,14 +32,16 @@ fn build_op(mask: u64, ng: u64, nl: u64) -> J {
 fn set_ids(code: u64, n: u64) -> Vec<String> {
     (1..=n).filter(|x| code >> (x - 1) & 1 == 1).map(eid).collect()
 }
-/// edit codes of KMemberOfMC: 1 add(g,x) 2 remove(g,x) 3 set(g, setcode) 4 delete(setcode) 5 revive(x)
+/// edit codes of KMemberOfMC: 1 add(g,x) 2 remove(g,x) 3 set(g, setcode) 4 delete(setcode) 5 revive(x);
+/// 6 revive(setcode) is used by the walk only
 fn act_op(k: u64, a: u64, b: u64, n: u64) -> J {
     match k {
         1 => json!({"a":"add_member","g":eid(a),"x":eid(b)}),
         2 => json!({"a":"remove_member","g":eid(a),"x":eid(b)}),
         3 => json!({"a":"set_members","g":eid(a),"xs":set_ids(b, n)}),
         4 => json!({"a":"delete","ids":set_ids(a, n)}),
-        _ => json!({"a":"revive","id":eid(a)}),
+        5 => json!({"a":"revive","ids":[eid(a)]}),
+        _ => json!({"a":"revive","ids":set_ids(a, n)}), // 6: ONE revive operation over a set
     }
 }
 
@@ -149,6 +151,7 @@ pub fn run(o: &Opts) -> i32 {
                             seqs.push(vec![act_op(4, d, 0, n)]);
                             seqs.push(vec![act_op(4, d, 0, n), act_op(5, x, 0, n)]);
                             seqs.push(vec![act_op(4, d, 0, n), act_op(5, y, 0, n), act_op(5, x, 0, n)]);
+                            seqs.push(vec![act_op(4, d, 0, n), act_op(6, d, 0, n)]);
                         }
                     }
                 }
